@@ -79,4 +79,31 @@ PROPS = {
         "trusted": ["buildkite/interpolate is the expansion function: a Section variable in the theorems, a segment evaluator in the correspondence (validated against the real library on the generated strings)"],
         "partial": "the expansion function itself (interpolate library parser) is not verified",
     },
+    "C14": {
+        "coq_deps": ["Props/C14.v", "Tie/TieSign.v"],
+        "tie_theorems": ["TieSign.tie_signed_fields", "TieSign.tie_env_prefix", "TieSign.tie_payload_tags"],
+        "rule": "(step, pipeline env, repository URL, key) tuples: the step is a generated signable command-step document loaded through CommandStep.UnmarshalJSON; the payload bytes are captured from Sign under WithDebugSigning(true)+WithLogger and compared BYTE FOR BYTE with the model's ser(alg, values) (ties Model/Jcs.v to json.Marshal + jcs.Transform). For each base tuple: 3 repeated runs (determinism), re-orderings / re-spellings that must collide (deep key shuffles, env {} / plugins [] or null / matrix {} or null added, command vs commands, label/key/agents changed) and boundary-shifting / single-point variants that must not (character moved between command and repository URL, between an env key and its value, between step env and pipeline env; plugin order, added plugin, matrix value, pipeline env value, other algorithm). Non-trivial: all.",
+        "trusted": ["gowebpki/jcs and encoding/json text encoding are modelled by Model/Jcs.v (validated byte-for-byte); RFC 8785 key order is taken bytewise (equal to UTF-16 order except between astral characters and U+E000-U+FFFF); number tokens are assumed JCS-stable (integers within 2^53; finding F10 otherwise); strings valid UTF-8 (finding F11 otherwise)"],
+        "partial": "float formatting (ES6 number serialisation) and UTF-8 validity are assumptions of the injectivity theorem (wf_json)",
+    },
+    "C01": {
+        "coq_deps": ["Props/C01.v", "Props/C14.v", "Tie/TieSign.v"],
+        "tie_theorems": ["TieSign.tie_signed_fields", "TieSign.tie_required_fields", "TieSign.tie_values_for_fields"],
+        "rule": "generated signable steps signed with real keys (quick: two EdDSA JWKs and an ES256 crypto.Signer; thorough adds ES512 and PS512), then for each ~25 single-point mutations of the presented step (all C14 variants), the verification env (signed variable removed / changed, unrelated variable added), the repository URL, the signature record (algorithm, field list: drop each mandatory field, drop a signed env::X, add env:: fields, unknown field, empty, reordered, duplicated; value spliced from another step signed with the same key; garbage) and the key; observable: verdict of the real signature.Verify vs the model's verdict over a symbolic scheme; oracle: semantic mutation => error, non-semantic => success.",
+        "trusted": ["jwx jws.Sign/Verify and the unforgeability of EdDSA/ES256/ES512/PS512 are replaced by an ideal signature scheme (vrf_ideal, sgn_inj) in the theorems; the correspondence exercises the real algorithms"],
+        "partial": "cryptographic unforgeability is an assumption (ideal scheme); shown satisfiable by a symbolic instance",
+    },
+    "C06": {
+        "coq_deps": ["Props/C06.v", "Props/C01.v"],
+        "rule": "generated step lists (command, wait, block/input scalars and mappings, trigger, groups nested to depth 4, unknown steps at every position and depth in half of the cases) parsed from JSON, pipeline env maps overlapping step envs, all keys of the pool; observable: refusal, per command step (in order, at every depth) the signed-field list, algorithm and Verify verdict; oracles: refusal iff an unknown step occurs anywhere, field list = sorted five + env:: per unshadowed variable, every signature verifies, steps with signatures erased marshal as before, caller env map unchanged. Non-trivial = at least two command steps signed.",
+        "trusted": ["crypto as C01"],
+        "partial": "crypto as C01",
+    },
+    "C04": {
+        "coq_deps": ["Props/C04.v", "Tie/TieScope.v", "Props/C10.v"],
+        "tie_theorems": ["TieScope.tie_env_scope_command_step", "TieScope.tie_env_scope_other_steps"],
+        "rule": "grammar-generated pipeline documents in which every unknown key, unknown value, label, plugin config entry, cache / matrix / adjustment string etc. carries a unique marker followed by an env reference ($V, ${V}, $$V, \\$V, ${V:-d}, ${V-d}, $(, $1, \\\\ ...); every third document adds Go-map levels with 9-24 entries whose keys change (step env, unknown fields, plugin config); Parse + (*Pipeline).Interpolate with a 5-variable environment, 3 runs per document; observable: marshalled JSON, compared with the model (parse, env block, walkers, with a Coq model of the generated subset of the interpolate library); oracle: each marked string appears exactly once in the output as the real library's single-pass expansion (signature values unchanged), runs agree. Non-trivial: all.",
+        "trusted": ["buildkite/interpolate: abstract in the theorems; Model/Interpolate.v models only the generated subset and is validated by the correspondence"],
+        "partial": "the expansion function itself is not verified; key collisions inside one mapping follow Replace semantics (C05) / greatest-original-key-wins (Go maps) and are excluded from the exactly-once theorem by no_collision",
+    },
 }
